@@ -10,9 +10,10 @@
 (*   stepping: Pull (time write + pull loop, atomic under the queue lock), *)
 (*             DoSync (Clock::synchronize), the run phase, Return          *)
 (*   run phase (executor running, small-step):                             *)
-(*             HBegin (a model takes a message from its mailbox, keyed     *)
+(*             HTake (a model takes a message from its mailbox, keyed      *)
 (*             events re-check their key here), HSkip (cancelled keyed     *)
-(*             event discarded by the target), HOp (one operation of the   *)
+(*             event discarded by the target), HStart (the handler body    *)
+(*             begins and reads the time), HOp (one operation of the       *)
 (*             handler: schedule / cancel / send / panic / ...),           *)
 (*             Quiesce / Abort (Executor::run returns)                     *)
 (*                                                                         *)
@@ -65,7 +66,7 @@ vars == <<now, queue, nextEpoch, cancelled, slots, terminated, phase, cmd, mbox,
           running, blocked, orphan, pendErr, result, synced, fired, sched, cancelPos, termAt>>
 
 NoCmd     == [name |-> "none"]
-NoHandler == [prog |-> 0, pc |-> 0]
+NoHandler == [prog |-> 0, pc |-> 0, from |-> ""]
 NotTerminated == [now |-> -1]
 
 Senders == {"drv"} \cup {"g:" \o o : o \in Origins} \cup Models
@@ -348,7 +349,7 @@ SkipSameSync ==
 -----------------------------------------------------------------------------
 (* Run phase *)
 
-Idle(m) == IF running[m].pc = 0 THEN TRUE
+Idle(m) == IF running[m].prog = 0 THEN TRUE
            ELSE running[m].pc > Len(Prog[running[m].prog]) /\ m \notin blocked
 
 CanTake(m, s) == /\ phase = "run" /\ Idle(m) /\ m \notin blocked /\ mbox[m][s] # <<>>
@@ -362,19 +363,45 @@ HSkip(m, s) ==
     /\ UNCHANGED <<now, queue, nextEpoch, cancelled, slots, terminated, phase, cmd,
                    running, blocked, orphan, pendErr, result, ghost>>
 
-(* A model starts the handler of the next message of one of its senders. *)
-HBegin(m, s) ==
+(* A model takes the next message of one of its senders out of its mailbox *)
+(* and starts processing it: this is where a keyed event re-reads its key   *)
+(* (HSkip is the other outcome).  The handler body starts with HStart; the  *)
+(* two are separate steps because only the second one can be observed.      *)
+HTake(m, s) ==
     /\ CanTake(m, s)
     /\ LET msg == Head(mbox[m][s])
        IN  /\ ~(msg.cls = "ev" /\ msg.key # 0 /\ msg.key \in cancelled)
            /\ mbox' = [mbox EXCEPT ![m][s] = Tail(@)]
-           /\ running' = [running EXCEPT ![m] = [prog |-> msg.prog, pc |-> 1]]
+           /\ running' = [running EXCEPT ![m] = [prog |-> msg.prog, pc |-> 0, from |-> s]]
            /\ fired' = Append(fired, [time |-> now, due |-> msg.due, model |-> m, prog |-> msg.prog,
                                       origin |-> msg.origin, ep |-> msg.ep, from |-> s,
                                       sid |-> msg.sid, key |-> msg.key, akey |-> msg.akey,
                                       cls |-> msg.cls, nsync |-> Len(synced)])
     /\ UNCHANGED <<now, queue, nextEpoch, cancelled, slots, terminated, phase, cmd,
                    blocked, orphan, pendErr, result, synced, sched, cancelPos, termAt>>
+
+(* HTake immediately followed by HStart, as one step: what happens whenever  *)
+(* nothing else intervenes (always so on the single-threaded executor).     *)
+HTakeStart(m, s) ==
+    /\ CanTake(m, s)
+    /\ LET msg == Head(mbox[m][s])
+       IN  /\ ~(msg.cls = "ev" /\ msg.key # 0 /\ msg.key \in cancelled)
+           /\ mbox' = [mbox EXCEPT ![m][s] = Tail(@)]
+           /\ running' = [running EXCEPT ![m] = [prog |-> msg.prog, pc |-> 1, from |-> s]]
+           /\ fired' = Append(fired, [time |-> now, due |-> msg.due, model |-> m, prog |-> msg.prog,
+                                      origin |-> msg.origin, ep |-> msg.ep, from |-> s,
+                                      sid |-> msg.sid, key |-> msg.key, akey |-> msg.akey,
+                                      cls |-> msg.cls, nsync |-> Len(synced)])
+    /\ UNCHANGED <<now, queue, nextEpoch, cancelled, slots, terminated, phase, cmd,
+                   blocked, orphan, pendErr, result, synced, sched, cancelPos, termAt>>
+
+(* The handler of the message taken by m starts executing (it reads the time here). *)
+HStart(m) ==
+    /\ phase = "run"
+    /\ running[m].prog # 0 /\ running[m].pc = 0
+    /\ running' = [running EXCEPT ![m].pc = 1]
+    /\ UNCHANGED <<now, queue, nextEpoch, cancelled, slots, terminated, phase, cmd, mbox,
+                   blocked, orphan, pendErr, result, ghost>>
 
 CurOp(m) == Prog[running[m].prog][running[m].pc]
 HasOp(m) == /\ phase = "run"
@@ -442,7 +469,7 @@ HOp(m, outcome) ==
     /\ UNCHANGED <<now, terminated, phase, cmd, result, synced, fired, termAt>>
 
 NothingRunnable ==
-    /\ \A m \in Models : ~HasOp(m)
+    /\ \A m \in Models : ~HasOp(m) /\ ~(running[m].prog # 0 /\ running[m].pc = 0)
     /\ \A m \in Models : \A s \in Senders : ~CanTake(m, s)
 
 BoxLen(m) ==
